@@ -27,6 +27,8 @@ type Obligation struct {
 	Result  *SolveResult
 	MustSat bool // cover obligation: expected satisfiable
 	Obs     []namedTerm // what a replay on the real code can observe at this point (results, scanner state)
+	// OwnTags: the clause named properties itself (otherwise Tags are the function's)
+	OwnTags bool
 }
 
 type FuncCtx struct {
@@ -241,7 +243,13 @@ func (fc *FuncCtx) emit(st *State, kind, site, clause string, tags []string, goa
 	if site != "" {
 		name += "@" + site
 	}
-	ob := &Obligation{Name: name, Func: fc.name, Kind: kind, Tags: pickTags(tags, fc.tags), Clause: clause,
+	own := false
+	for _, t := range tags {
+		if strings.HasPrefix(t, "C") {
+			own = true
+		}
+	}
+	ob := &Obligation{Name: name, Func: fc.name, Kind: kind, Tags: pickTags(tags, fc.tags), Clause: clause, OwnTags: own,
 		Goal: goal, PC: append([]*Term(nil), st.pc...), Path: strings.Join(st.path, " "), Site: site, fc: fc, Obs: fc.curObs}
 	fc.obs = append(fc.obs, ob)
 }
